@@ -3,6 +3,7 @@ import Ruint.Lemmas.ShiftKernels
 import Ruint.Lemmas.Add
 import Ruint.Gen.AddmulN
 import Ruint.Lemmas.GenCore
+import Ruint.Lemmas.GenKernels
 
 /-!
 # C15 — limb-slice multiply, accumulate, add, subtract, shift, compare kernels are exact
@@ -327,6 +328,22 @@ theorem gen_sbb_spec (a b c : ℕ) (ha : a < W) (hb : b < W) (hc : c < W) :
     (Ruint.Gen.sbb a b c).1 + b + c = a + W * (Ruint.Gen.sbb a b c).2
     ∧ (Ruint.Gen.sbb a b c).1 < W ∧ (Ruint.Gen.sbb a b c).2 < W :=
   Ruint.GenCore.sbb_spec a b c ha hb hc
+
+/-! ## Whole-kernel tie of `adc_n` / `sbb_n` to the source (G)
+
+`Ruint.Gen.adc_n` / `sbb_n` are regenerated from `src/algorithms/add.rs` by `tools/rs2lean.py` on every run — the complete
+functions, `for i in 0..lhs.len()` as an index loop with `lhs[i]` reads and writes and the `&mut` slice returned next to the
+carry. On word slices with `|lhs| ≤ |rhs|` the models `adcN` / `sbbN` of `adc_n_spec` / `sbb_n_spec` EQUAL them. -/
+
+theorem gen_adc_n_eq (lhs rhs : List ℕ) (c : ℕ) (hl : lhs.length ≤ rhs.length) (hn : lhs.length < 2 ^ 64)
+    (hwl : AllLt lhs) (hwr : AllLt rhs) (hc : c < W) :
+    adcN W lhs rhs c = some (Ruint.Gen.adc_n (lhs.length + 1) lhs rhs c) :=
+  Ruint.GenKernels.adc_n_eq lhs rhs c hl hn hwl hwr hc
+
+theorem gen_sbb_n_eq (lhs rhs : List ℕ) (c : ℕ) (hl : lhs.length ≤ rhs.length) (hn : lhs.length < 2 ^ 64)
+    (hwl : AllLt lhs) (hwr : AllLt rhs) (hc : c < W) :
+    sbbN W lhs rhs c = some (Ruint.Gen.sbb_n (lhs.length + 1) lhs rhs c) :=
+  Ruint.GenKernels.sbb_n_eq lhs rhs c hl hn hwl hwr hc
 
 /-! ## non-vacuity: concrete branch witnesses evaluated by the kernel -/
 
